@@ -229,13 +229,15 @@ def run(ctx):
             ctx.check(len(tests) >= 1, "R08.2", f.short, "is_finished-test",
                       message=f"{cls.name}.{mname} updates the watermark without testing trial.state.is_finished()",
                       how="branch on is_finished() present")
+            adefs = single_defs(f.node)  # the set may be reached through a local alias (`ids = study.unfinished_trial_ids`)
+            is_unf = lambda e: norm(resolve(e, adefs)).endswith("." + UNF)  # noqa: E731
             adds = [n for n in g.stmt_nodes() for c in n.calls()
-                    if isinstance(c.func, ast.Attribute) and c.func.attr == "add" and norm(c.func.value).endswith("." + UNF)]
+                    if isinstance(c.func, ast.Attribute) and c.func.attr == "add" and is_unf(c.func.value)]
             rems = [n for n in g.stmt_nodes() for c in n.calls()
-                    if isinstance(c.func, ast.Attribute) and c.func.attr in ("remove", "discard") and norm(c.func.value).endswith("." + UNF)]
+                    if isinstance(c.func, ast.Attribute) and c.func.attr in ("remove", "discard") and is_unf(c.func.value)]
 
             def atom_in_unf(e):
-                if isinstance(e, ast.Compare) and len(e.ops) == 1 and norm(e.comparators[0]).endswith("." + UNF):
+                if isinstance(e, ast.Compare) and len(e.ops) == 1 and is_unf(e.comparators[0]):
                     if isinstance(e.ops[0], ast.In):
                         return True
                     if isinstance(e.ops[0], ast.NotIn):
